@@ -5,7 +5,7 @@ Engine SEQ over driver schedules: 1-3 instances of generator bodies wrapped
 with eliot_friendly_generator_function are driven by every step sequence up to
 length L with <= k deviations from the default (round-robin, next(), no driver
 action); a step is (generator, op in {next, send(v), throw(E), close}, driver
-context in {none, inside X, inside Y}).  Oracle: (a) after every resumption
+context in {none, inside X, inside Y, a copy of the driver's Context, another thread}).  Oracle: (a) after every resumption
 current_action() inside the body *is* the top of that generator's own
 reference stack (action current in the driver when it was first resumed plus
 the actions it entered since) and everything it logs is a child of that
@@ -14,7 +14,10 @@ action; (b) the driver's current action is unchanged by every step;
 returned values equals that of the undecorated generator driven identically.
 """
 
+import re
 import itertools
+import threading
+import contextvars
 
 from vkit import world
 from vkit.runner import Result
@@ -32,7 +35,7 @@ RULE = (
     "decorated generator via yield from, catching a thrown exception, try/finally logging on close, "
     "immediate return, two nested actions spanning a yield); driver step sequences of length <= L with "
     "<= k deviations from (round-robin, next, no context), each deviation replacing a step by any other "
-    "(generator, op, context) triple; states = distinct (per-generator reference stacks, driver "
+    "(generator, op, context) triple with context in {none, inside X, inside Y, copied Context, other thread}; states = distinct (per-generator reference stacks, driver "
     "context) vectors, transitions = driver steps; non-trivial = sequence with >= 1 deviation"
 )
 ASSUMPTIONS = [
@@ -211,8 +214,8 @@ OPS = ["next", "send", "throw", "close"]
 
 def BOUNDS(tier):
     if tier == "quick":
-        return {"max_steps": 5, "deviations": 2, "triples": 2}
-    return {"max_steps": 7, "deviations": 3, "triples": 4}
+        return {"max_steps": 4, "deviations": 2, "triples": 2}
+    return {"max_steps": 6, "deviations": 3, "triples": 4}
 
 
 def configs(tier):
@@ -232,7 +235,7 @@ def cases(unit, tier):
     cfg, L, k = unit
     G = len(cfg)
     default = [[i % G, 0, 0] for i in range(L)]
-    alts = [[g, o, c] for g in range(G) for o in range(4) for c in range(3)]
+    alts = [[g, o, c] for g in range(G) for o in range(4) for c in range(5)]
     for d in range(0, k + 1):
         for pos in itertools.combinations(range(L), d):
             choices = [[a for a in alts if a != default[p]] for p in pos]
@@ -252,7 +255,7 @@ def drive(cfg, steps, decorated):
         seen = world.capture()
         X = start_action(action_type="driver:X")
         Y = start_action(action_type="driver:Y")
-        ctxs = [None, X, Y]
+        ctxs = [None, X, Y, None, None]
         cache = {}
 
         def deco(f):
@@ -297,13 +300,27 @@ def drive(cfg, steps, decorated):
                 except Thrown as e:
                     r = ("raised", "Thrown", any(e is t for t in thrown) and e is thrown[-1] or _idx(e, thrown))
                 except BaseException as e:
-                    r = ("raised", type(e).__name__, str(e)[:80])
+                    r = ("raised", type(e).__name__, re.sub(r"0x[0-9a-fA-F]+", "0x?", str(e))[:80])
                 after = current_action()
                 if decorated and after is not before:
                     problems.append(("driver-context-changed", {"step": si, "op": OPS[o], "before": _n(before), "after": _n(after)}))
                 return r
 
-            if ctx is None:
+            if c in (3, 4) and not decorated:
+                # the undecorated reference is driven in one isolated context (a plain generator
+                # holding a `with` block cannot be resumed from several Contexts at all)
+                r = step()
+            elif c == 3:
+                # resume from a copy of the driver's Context (what a new asyncio task does)
+                r = contextvars.copy_context().run(step)
+            elif c == 4:
+                # resume from another thread (fresh, empty Context)
+                box = []
+                t = threading.Thread(target=lambda: box.append(step()))
+                t.start()
+                t.join()
+                r = box[0]
+            elif ctx is None:
                 r = step()
             else:
                 with ctx.context():
